@@ -1,26 +1,28 @@
 #!/usr/bin/env python3
-"""Apply a seeded change to /repo, run the given property checks, undo the change.  usage: tools_seed_eval.py <patch> <prop> [<prop>..] [--kani]"""
-import subprocess, sys, os
-patch = sys.argv[1]
+"""Run property checks against a seeded change.  The change is applied in a throw-away worktree of /repo's HEAD (so /repo itself
+stays clean and several evaluations can run side by side); the checks are pointed at it through VERIF_REPO.
+usage: tools_seed_eval.py <patch> <prop> [<prop>..] [--kani]"""
+import subprocess, sys, os, shutil
+patch = os.path.abspath(sys.argv[1])
 props = [a for a in sys.argv[2:] if not a.startswith('--')]
 kani = '--kani' in sys.argv
-st = subprocess.run(['git', '-C', '/repo', 'status', '--porcelain'], capture_output=True, text=True).stdout.strip()
-if st:
-    print('refusing: /repo is dirty:\n' + st); sys.exit(2)
-r = subprocess.run(['git', '-C', '/repo', 'apply', '--3way', patch], capture_output=True, text=True)
-if r.returncode != 0:
-    r = subprocess.run(['git', '-C', '/repo', 'apply', patch], capture_output=True, text=True)
-    if r.returncode != 0:
-        print('patch does not apply:', r.stderr); sys.exit(2)
+wt = f'/var/tmp/seedwt-{os.getpid()}'
+subprocess.run(['git', '-C', '/repo', 'worktree', 'add', '-q', '--detach', wt, 'HEAD'], check=True)
 try:
+    r = subprocess.run(['git', '-C', wt, 'apply', '--3way', patch], capture_output=True, text=True)
+    if r.returncode != 0:
+        r = subprocess.run(['git', '-C', wt, 'apply', patch], capture_output=True, text=True)
+        if r.returncode != 0:
+            print('patch does not apply:', r.stderr); sys.exit(2)
+    env = dict(os.environ, VERIF_REPO=wt, VERIF_BUILD_DIR=f'/var/tmp/seedbuild-{os.getpid()}', VERIF_NO_EVIDENCE='1')
     for p in props:
-        cmd = ['./check', p] + ([] if kani else ['--no-kani'])
-        q = subprocess.run(cmd, capture_output=True, text=True, cwd=os.path.dirname(os.path.abspath(__file__)))
+        cmd = ['python3', 'lib/driver.py', p] + ([] if kani else ['--no-kani'])
+        q = subprocess.run(cmd, capture_output=True, text=True, cwd=os.path.dirname(os.path.abspath(__file__)), env=env)
         last = [l for l in q.stdout.strip().split('\n') if l][-6:]
         print(f'== {p}: exit={q.returncode}')
         for l in last:
             print('   ', l[:300])
 finally:
-    subprocess.run(['git', '-C', '/repo', 'reset', '-q', 'HEAD', '--', '.'])
-    subprocess.run(['git', '-C', '/repo', 'checkout', '--', '.'])
-    subprocess.run(['git', '-C', '/repo', 'clean', '-fdq', 'crates'])
+    subprocess.run(['git', '-C', '/repo', 'worktree', 'remove', '--force', wt], capture_output=True)
+    shutil.rmtree(wt, ignore_errors=True)
+    shutil.rmtree(f'/var/tmp/seedbuild-{os.getpid()}', ignore_errors=True)
